@@ -44,9 +44,10 @@ ASSUMPTIONS = [
 
 ITS = [0, 1, 2, 3, 5, 8, 13]
 VARNAMES = ['alpha', 'gxx', 'rho0', 'Kdown3', 'betaup3', 'custom_q']
-SHAPES = {'alpha': (2, 3, 4), 'gxx': (2, 3, 4), 'rho0': (2, 3, 4),
-          'Kdown3': (3, 3, 2, 2, 2), 'betaup3': (3, 2, 3, 4),
+SHAPES = {'alpha': (2, 3, 4), 'gxx': (2, 1, 4), 'rho0': (2, 3, 4),
+          'Kdown3': (3, 3, 2, 2, 2), 'betaup3': (3, 2, 3, 1),
           'custom_q': ()}
+BIG_SHAPE = (70, 44, 50)        # > 1 MiB as float64, no axis a power of two
 DTYPES = ['float64', 'float64', 'float32', 'int64', 'complex128']
 
 
@@ -76,6 +77,8 @@ def generate(rng, tier):
                         'dtype': g.pick(DTYPES)}
                 else:
                     cols[v] = {'kind': 'full', 'dtype': g.pick(DTYPES)}
+                    if v in ('alpha', 'rho0') and g.chance(0.02):
+                        cols[v]['big'] = True
             with_it = g.chance(0.85)
             with_t = g.chance(0.7)
             if with_it:
@@ -95,7 +98,8 @@ def generate(rng, tier):
                         't_none': with_t and g.chance(0.1),
                         'it': sel, 'vars': vsel,
                         'rl': g.weighted([(0, 5), (1, 3), (2, 1), (10, 1)]),
-                        'default_it': False, 'it_array': g.chance(0.4)})
+                        'default_it': False, 'it_array': g.chance(0.4),
+                        'kw_it_array': g.chance(0.3)})
             saved_its += its
         else:
             pool = sorted(set(saved_its)) or [0]
@@ -109,7 +113,8 @@ def generate(rng, tier):
             vs = [] if g.chance(0.4) else g.subset(
                 VARNAMES + ['never_saved', 't'], 0.2, 0.8, nonempty=True)
             ops.append({'op': 'read', 'it': it, 'vars': vs,
-                        'rl': g.weighted([(0, 5), (1, 3), (2, 1), (10, 1)])})
+                        'rl': g.weighted([(0, 5), (1, 3), (2, 1), (10, 1)]),
+                        'kw_it_array': g.chance(0.3)})
     return {'config': cfg, 'ops': ops}
 
 
@@ -170,9 +175,9 @@ def simplify(run):
 
 
 # ---------------------------------------------------------------------------
-def _make_array(opi, v, pos, itv, dtype):
+def _make_array(opi, v, pos, itv, dtype, big=False):
     """Unique, attributable array for (save op, variable, position)."""
-    shape = SHAPES.get(v, (2, 2, 2))
+    shape = BIG_SHAPE if big else SHAPES.get(v, (2, 2, 2))
     seed = int.from_bytes(hashlib.sha256(
         f'{opi}|{v}|{pos}'.encode()).digest()[:4], 'big')
     base = 1000.0 * (opi + 1) + 10.0 * pos + (seed % 7) / 8.0
@@ -229,12 +234,15 @@ def execute(run):
                     if col['kind'] == 'ragged' and pos in col['none_at']:
                         arrs.append(None)
                     else:
-                        a = _make_array(opi, v, pos, iv, col['dtype'])
+                        a = _make_array(opi, v, pos, iv, col['dtype'],
+                                        col.get('big', False))
                         origin[digest(a)] = (f'op#{opi} save data[{v!r}]'
                                              f'[{pos}] (belongs to it={iv})')
                         arrs.append(a)
                 data[v] = arrs
             kwargs = {'it': list(op['it']), 'rl': op['rl']}
+            if op.get('kw_it_array'):
+                kwargs['it'] = np.array(op['it'])      # a legal way to pass it
             if op['vars']:
                 kwargs['vars'] = list(op['vars'])
             before = (digest(data), digest(kwargs), digest(param))
@@ -295,6 +303,8 @@ def execute(run):
             tr.event('save', op=op, outcome=outcome)
         else:
             kwargs = {'it': list(op['it']), 'rl': op['rl']}
+            if op.get('kw_it_array'):
+                kwargs['it'] = np.array(op['it'])
             if op['vars']:
                 kwargs['vars'] = list(op['vars'])
             else:
